@@ -89,6 +89,78 @@ def park_is_durable(kind: int, exists: bool, status_idx: int, attempt: int, fail
 BEH = ["ok", "fail", "park", "park_until", "ok_after_park", "never"]
 
 
+def susp_check(n, is_map, tol, kinds, d0, d1, choices, eager=(), fail_refresh=False):
+    delays = [9 if d0 else 5, 5 if d1 else 7, 6]   # concrete timer distances (symbolic floats do not converge); their ORDER is what matters
+    beh, never = [], []
+    for i, k in enumerate(kinds):
+        dly = delays[i]
+        if k == 0:
+            beh.append(("ok", i))
+        elif k == 1:
+            beh.append(("fail", "boom"))
+        elif k == 2:
+            beh.append(("park",))
+        elif k == 3:
+            beh.append(("park_until", dly))
+        elif k == 4:
+            beh.append(("ok_after_park", i, dly))
+        else:
+            beh.append(("ok", i))
+            never.append(i)
+    script = XW.Script(beh)
+    cfg = CompletionConfig(tolerated_failure_count=n) if tol else CompletionConfig()
+    world = XW.World(choices=choices, never=never, eager=eager)
+    ex = XW.make_executor(script, is_map, cfg, None)
+    st = XW.FakeState(None)
+    st.fail_refresh = fail_refresh
+    st.exempt_first_starts = True
+    (kind, val), st = XW.run_execute(ex, world, st)
+    if world.submits > n and [k for k in eager if k >= n]:
+        h.reach("eager_resubmission")
+    empties = [1 for (u, sync) in st.log if u is None]
+    h.check(all(sync for (u, sync) in st.log if u is None), "the state refresh before resuming a branch must be a synchronous checkpoint")
+    resubmitted = len(XW.VExecPool.last.all) - n
+    if st.dead is None:
+        h.check(len(empties) == resubmitted, "each resubmission must be preceded by exactly one empty (refresh) checkpoint")
+    statuses = [e.status for e in ex.executables_with_state]
+    if st.dead is not None:
+        h.reach("refresh_failed")
+        if kind == "deadlock" and never:
+            h.end()    # a branch's own user code runs forever: not the SDK's doing
+            return
+        h.check(kind != "deadlock", "the state refresh of a timer-driven resubmission failed and execute() never returns: " + str(val))
+        h.check(kind == "raise" and val is st.dead, "after a failed checkpoint execute() must propagate the failure, not return or suspend")
+        h.end()
+        return
+    if kind == "deadlock":
+        h.reach("blocked")
+        h.check(len(never) > 0, "execute() never returns although no branch is still running user code: " + str(val))
+        h.end()
+        return
+    if kind == "suspend":
+        h.reach("suspended")
+        h.check(all(s not in (BranchStatus.RUNNING, BranchStatus.PENDING) for s in statuses),
+                "PENDING reported while a branch was still running or waiting to start")
+        parked = [e for e in ex.executables_with_state if e.status in (BranchStatus.SUSPENDED, BranchStatus.SUSPENDED_WITH_TIMEOUT)]
+        h.check(len(parked) >= 1)
+        h.check(not never, "suspended although a branch's user code was still executing")
+        timed = [e.suspend_until for e in parked if e.status is BranchStatus.SUSPENDED_WITH_TIMEOUT]
+        if timed:
+            h.reach("timed")
+            h.check(isinstance(val, TimedSuspendExecution) and val.scheduled_timestamp == min(timed), "timed suspension must carry the earliest parked timestamp")
+        else:
+            h.check(not isinstance(val, TimedSuspendExecution), "indefinite suspension must not carry a timestamp")
+    elif kind == "ret":
+        h.reach("returned")
+        for i in range(n):
+            if beh[i][0] == "ok_after_park" and val.all[i].status is BatchItemStatus.SUCCEEDED:
+                h.reach("resumed")
+                h.check(script.entries[i] == 2 and val.all[i].result == i, "a resumed branch must run again exactly once and deliver its result")
+    else:
+        h.check(False, "execute() raised an unexpected exception")
+    h.end()
+
+
 def _mk_susp(n, is_map, tol):
     def lem(b0: int, b1: int, b2: int, d0: int, d1: int, c0: int, c1: int, c2: int):
         """
@@ -98,62 +170,7 @@ def _mk_susp(n, is_map, tol):
         """
         if not h.THOROUGH and (c2 != 0 or d1 != 0):
             return
-        kinds = [b0, b1, b2][:n]
-        delays = [9 if d0 else 5, 5 if d1 else 7, 6]   # concrete timer distances (symbolic floats do not converge); their ORDER is what matters
-        beh, never = [], []
-        for i, k in enumerate(kinds):
-            dly = delays[i]
-            if k == 0:
-                beh.append(("ok", i))
-            elif k == 1:
-                beh.append(("fail", "boom"))
-            elif k == 2:
-                beh.append(("park",))
-            elif k == 3:
-                beh.append(("park_until", dly))
-            elif k == 4:
-                beh.append(("ok_after_park", i, dly))
-            else:
-                beh.append(("ok", i))
-                never.append(i)
-        script = XW.Script(beh)
-        cfg = CompletionConfig(tolerated_failure_count=n) if tol else CompletionConfig()
-        world = XW.World(choices=[c0, c1, c2], never=never)
-        ex = XW.make_executor(script, is_map, cfg, None)
-        t0 = XW.Clock.now
-        (kind, val), st = XW.run_execute(ex, world)
-        empties = [1 for (u, sync) in st.log if u is None]
-        h.check(all(sync for (u, sync) in st.log if u is None), "the state refresh before resuming a branch must be a synchronous checkpoint")
-        resubmitted = len(XW.VExecPool.last.all) - n
-        h.check(len(empties) == resubmitted, "each resubmission must be preceded by exactly one empty (refresh) checkpoint")
-        statuses = [e.status for e in ex.executables_with_state]
-        if kind == "deadlock":
-            h.reach("blocked")
-            h.check(len(never) > 0, "execute() never returns although no branch is still running user code")
-            h.end()
-            return
-        if kind == "suspend":
-            h.reach("suspended")
-            h.check(all(s not in (BranchStatus.RUNNING, BranchStatus.PENDING) for s in statuses),
-                    "PENDING reported while a branch was still running or waiting to start")
-            parked = [e for e in ex.executables_with_state if e.status in (BranchStatus.SUSPENDED, BranchStatus.SUSPENDED_WITH_TIMEOUT)]
-            h.check(len(parked) >= 1)
-            h.check(not never, "suspended although a branch's user code was still executing")
-            timed = [e.suspend_until for e in parked if e.status is BranchStatus.SUSPENDED_WITH_TIMEOUT]
-            if timed:
-                h.reach("timed")
-                h.check(isinstance(val, TimedSuspendExecution) and val.scheduled_timestamp == min(timed), "timed suspension must carry the earliest parked timestamp")
-            else:
-                h.check(not isinstance(val, TimedSuspendExecution), "indefinite suspension must not carry a timestamp")
-        elif kind == "ret":
-            h.reach("returned")
-            for i in range(n):
-                if beh[i][0] == "ok_after_park" and val.all[i].status is BatchItemStatus.SUCCEEDED:
-                    h.reach("resumed")
-                    h.check(script.entries[i] == 2 and val.all[i].result == i, "a resumed branch must run again exactly once and deliver its result")
-        else:
-            h.check(False, "execute() raised an unexpected exception")
-        h.end()
+        susp_check(n, is_map, tol, [b0, b1, b2][:n], d0, d1, [c0, c1, c2])
 
     lem.__name__ = lem.__qualname__ = f"executor_suspension_{n}_{'map' if is_map else 'parallel'}_{'tolerant' if tol else 'failfast'}"
     reach = ("end", "suspended", "returned", "timed") + (("blocked", "resumed") if n >= 2 else ())
@@ -168,6 +185,30 @@ for _n, _m in ((1, False), (2, False), (2, True), (3, False)):
         _f = _mk_susp(_n, _m, _t)
         globals()[_f.__name__] = _f
 del _f, _n, _m, _t
+
+
+def _mk_timer_thread(fail_refresh):
+    def lem(b0: int, b1: int, e: int, c0: int, c1: int, tol: bool):
+        """
+        pre: 3 <= b0 < 5 and 0 <= b1 < 6 and -1 <= e < 4 and 0 <= c0 < 3 and 0 <= c1 < 3
+        post: True
+        """
+        susp_check(2, False, tol, [b0, b1], 0, 0, [c0, c1], eager=[e] if e >= 0 else [], fail_refresh=fail_refresh)
+
+    lem.__name__ = lem.__qualname__ = "timer_thread_" + ("refresh_fails" if fail_refresh else "eager_completion")
+    reach = ("end", "refresh_failed") if fail_refresh else ("end", "suspended", "returned", "resumed", "eager_resubmission")
+    return h.lemma(timeout=600, thorough_timeout=2400, funcs=XFUNCS + ["concurrency.executor.TimerScheduler._timer_loop/schedule_resume/shutdown", "execute().resubmitter/submit_task"],
+                   reach=reach,
+                   bounds="parallel of 2 branches; branch 0 parks until now+5 (always, or once and then succeeds), branch 1: any of the six behaviours; "
+                          "ONE solver-chosen submit() (initial or timer-driven resubmission, ordinal 0..3) whose task has already finished when the submitting thread "
+                          "reaches add_done_callback - the callback then runs on the submitting thread (the timer thread inside its critical section, for a resubmission); "
+                          "TimerScheduler._lock modelled as a non-reentrant lock; " +
+                          ("the empty state-refresh checkpoint of the first resubmission fails with BackgroundThreadError and every later checkpoint too; " if fail_refresh else "") +
+                          "completion order solver-chosen at the first two scheduling points; <= 40 scheduling actions")(lem)
+
+
+timer_thread_eager_completion = _mk_timer_thread(False)
+timer_thread_refresh_fails = _mk_timer_thread(True)
 
 # executions reach a terminal state within the invocation bound, no invocation blocks forever (composed world lemmas shared with C02)
 from harness import C02 as _C02  # noqa: E402
